@@ -201,6 +201,8 @@ def run(chk, ctx):
     # ---- interpreter effects over the entry points
     runs = 0
     bad_effects = []
+    arg_memo = []
+    from .c12 import input_effects
     pol = codec.FramePolicy(prog)
     from .. import layout as L
     keys = ctx.index_mapping()
@@ -211,6 +213,8 @@ def run(chk, ctx):
         runs += 1
         for b in shared_effects(e['interp']):
             bad_effects.append(('frame.marshal(%s)' % ci.short, b))
+        for b in input_effects(e['interp'], {e['ref'].id}):
+            arg_memo.append(('frame.marshal(%s)' % ci.short, b))
         f = F.UnmarshalFacts(ctx, k, assume_type=1)
         runs += 1
         for b in shared_effects(f.it):
@@ -219,6 +223,26 @@ def run(chk, ctx):
         for r in f.rets:
             check_fresh(chk, f, r, 'frame.unmarshal -> %s' %
                         (r.cls.short if r.cls else '?'))
+    from .. import hdrlayout as H
+    he = H.encode(ctx, pol)
+    runs += 1
+    for b in shared_effects(he['interp']):
+        bad_effects.append(('frame.marshal(ContentHeader)', b))
+    for b in input_effects(he['interp'], he['input_ids']):
+        arg_memo.append(('frame.marshal(ContentHeader)', b))
+    memo_seen = set()
+    for where, e_ in arg_memo:
+        k_ = (e_.kind, e_.site)
+        if k_ in memo_seen:
+            continue
+        memo_seen.add(k_)
+        chk.ob('C16.C', '%s %s at %s' % (where, e_.kind, e_.site), False,
+               'an encode call stores on its argument (%s %s): what it '
+               'leaves there can change what a later call returns' % (
+                   e_.kind, str(e_.detail)[:60]), site=e_.site)
+    chk.ob('C16.C', 'encode calls leave their arguments alone',
+           not arg_memo, '%d encode runs, %d stores on argument objects' %
+           (len(keys) + 1, len(arg_memo)))
     f0 = F.UnmarshalFacts(ctx, None)
     for b in shared_effects(f0.it):
         bad_effects.append(('frame.unmarshal', b))
@@ -346,7 +370,7 @@ def run(chk, ctx):
     chk.units['abstract_runs'] = runs
 
 
-def check_fresh(chk, f, r, cons):
+def check_fresh(chk, f, r, cons, rule='C16.F'):
     """Every mutable object reachable from the result was created in this
     run (not at module / class scope)."""
     it = f.it
@@ -382,7 +406,7 @@ def check_fresh(chk, f, r, cons):
                     if isinstance(a, T.Ref):
                         visit(a, path)
     visit(r.objv, 'result')
-    chk.ob('C16.F', cons, not bad,
+    chk.ob(rule, cons, not bad,
            '%d objects reachable from the result, all created in this call'
            % n[0] if not bad else '; '.join(bad[:3]),
            site='pamqp/frame.py::unmarshal')
